@@ -95,6 +95,22 @@ reg('C12', 'exploration', 'runtime monitor: sequential history monitor against a
     'operation the directory and the loaded data are compared with a dictionary model whose pools come from the definitional digest.', TB,
     'DESIGN.md section 6 C12')
 
+PARSER = 'The parser command is executed on generated tool output derived from a generated reference whose object model is the oracle. '
+reg('C14', 'exploration', 'runtime monitor: reference-model oracle (apply record to gene sequence == re-extract gene from edited chromosome; re-implemented threshold arithmetic) over generated VEP / REDItools tables',
+    PARSER + 'parseVEP: every converted event must reproduce the genomic edit and carry the gene REF; boundary events may only be rejected. parseREDItools: emitted '
+    'record set equals the re-implemented filter at threshold-1/threshold/threshold+1.', TB, 'DESIGN.md section 6 C14')
+reg('C15', 'exploration', 'runtime monitor: reference-model oracle (record set, breakpoint coordinates, fused sequence from genome coordinates) for three tool formats + end-to-end callVariant witness check',
+    PARSER + 'The same logical fusions are written as STAR-Fusion, FusionCatcher and Arriba rows; the emitted (donor, acceptor, POS, ACCEPTER_POSITION) sets, '
+    'the sequences the records denote and the skip rules are compared with the model; callVariant on the emitted GVF must only label digestion products of the fused sequence.',
+    TB, 'DESIGN.md section 6 C15')
+reg('C16', 'exploration', 'runtime monitor: reference-model oracle (record applied to transcript == alternative exon list) over rMATS events constructed from transcripts',
+    PARSER + 'Events of all five rMATS types are built from a transcript and an explicit alternative exon list (both directions, both strands); every constrained record '
+    'must reproduce the alternative sequence; rows below the thresholds and fully annotated events must emit nothing.', TB + 'Completeness of emission is not claimed by the '
+    'property and is only counted (alternatives_not_emitted).', 'DESIGN.md section 6 C16')
+reg('C17', 'exploration', 'runtime monitor: reference-model oracle (fragments, circular sequence, id, skip rules) over generated CIRCexplorer2/3 tables, partly through the real CLI',
+    PARSER + 'Exon circles, ciRNAs with boundary jitter around the tolerance, unknown exons and evidence values around the thresholds; fragments, sequence and id are '
+    'compared with the model; a sample runs through the command line so the option wiring is exercised.', TB, 'DESIGN.md section 6 C17')
+
 NOT_YET = 'check not built yet in this session (runtime-monitoring design exists in DESIGN.md section 6); will be claimed when its monitor is committed'
 
 
